@@ -3,10 +3,10 @@ from . import simlib as S
 SUBCMD = "sim"
 IS_TRACE = True
 RUN = "monitor"
-TAGS = {2, 4, 8, 10, 11}
+TAGS = {2, 4, 5, 8, 10, 11}
 RULE = ("every datagram may be duplicated 1-3 times at later instants (incl. the connection-creating Initial via a "
         "duplication mask over the first datagrams), replayed from the same or from an attacker address, bit-flipped, "
-        "truncated, extended, or replaced by random bytes, interleaved with key updates; non-trivial = at least 3 "
+        "truncated, extended, or replaced by random bytes, interleaved with key updates; resumption while the previous connection's datagrams are replayed (stateless resets and forged Initial-shaped datagrams carrying the OLD connection's reset tokens), server restarts (genuine resets); non-trivial = at least 3 "
         "duplicated/replayed/corrupted datagrams reached an endpoint")
 
 
@@ -34,6 +34,33 @@ def gen(rng, n):
         if rng.chance(1, 4):
             d["NDGRAM"] = rng.range(1, 10)
         d["CLOSER"] = 0
+        m = rng.below(8)
+        if m == 0:
+            # resumption while datagrams of the PREVIOUS connection are replayed: the server answers them
+            # with stateless resets carrying the old connection's tokens, which must not end the new one
+            d["ZERO_RTT"] = rng.choice([1, 1, 2])
+            d["NCONNS"] = 1
+            d["REPLAY"] = rng.choice([400, 800])
+            d["RESET_FORGE"] = 1
+            d["SPOOF"] = 0
+            d["CORRUPT"] = 0
+            d["GARBAGE"] = 0
+            d["LOSS"] = 0
+            d["DUP"] = 0
+            d["DUP_MASK"] = 0
+            d.pop("RETRY", None)
+            d.pop("KEYUPD_C", None)
+            d.pop("KEYUPD_S", None)
+            if d.get("CID_LEN") == 0:
+                d["CID_LEN"] = 8
+        elif m == 1:
+            # the server process restarts: genuine stateless resets end exactly the connections whose
+            # datagrams provoked them
+            d["FORGET_AT"] = rng.choice([50000, 100000, 200000])
+            d["STREAM_BYTES"] = max(d["STREAM_BYTES"], 20000)
+            d["CORRUPT"] = 0
+            d["IDLE_MS"] = 3000
+            d["MAX_TIME"] = 20_000_000
         cases.append(S.case_of(d))
     return cases
 
@@ -47,7 +74,7 @@ def project(case, outs):
         if r[0] == 8:
             last[(r[2], r[3])] = i
     keep = set(last.values())
-    res = [r for i, r in enumerate(outs) if (r[0] in (2, 4, 11)) or (r[0] == 3 and r[4] in (11, 20, 21)) or (r[0] == 8 and i in keep)]
+    res = [r for i, r in enumerate(outs) if (r[0] in (2, 4, 11)) or (r[0] == 5 and r[4] == 1) or (r[0] == 3 and r[4] in (11, 20, 21)) or (r[0] == 13 and r[2] == 11) or (r[0] == 8 and i in keep)]
     res.sort(key=lambda r: 0)  # stable
     probes = [r for r in res if r[0] == 8]
     others = [r for r in res if r[0] != 8]
